@@ -129,6 +129,19 @@ def tasks(ctx, quick):
             sub = abs_spec(rng, 2, allow_vol=False)
             add({"kind": "mixstr", "spec": sub})
             spec["parts"][rng.randrange(len(spec["parts"]))] = {"sub": sub, "rep": rng.choice([1, 2, 3, 0.5])}
+        elif r < 0.45 and form in ("abs", "wt%"):
+            # an amount (or a percentage) of a parenthesised mixture given by absolute amounts, volumes included
+            sub = abs_spec(rng, 2)
+            if i % 2:
+                sub["parts"][0].update(unit=rng.choice(VOLU), f=rng.choice(WITH_DENS))
+            add({"kind": "mixstr", "spec": sub})
+            k = rng.randrange(len(spec["parts"]) - (1 if form == "wt%" else 0))
+            if form == "abs":
+                q = rng.choice(QS)
+                spec["parts"][k] = {"sub": sub, "qs": q, "q": qv(q), "unit": rng.choice(MASSU), "gap": rng.choice(["", " "])}
+            else:
+                old = spec["parts"][k]
+                spec["parts"][k] = {"sub": sub, "qs": old.get("qs", "20"), "q": old.get("q", 20.0), "kw": old.get("kw", "wt%"), "dens": ""}
         elif r < 0.3 and form == "layer":
             sub = layer_spec(rng, 2)
             add({"kind": "mixstr", "spec": sub})
@@ -136,7 +149,7 @@ def tasks(ctx, quick):
         add({"kind": "mixstr", "spec": spec})
         if i % 5 == 3:
             items[-1]["kw"] = rng.choice([{"name": "sample 7"}, {"name": "x", "table": None}])
-        if form in ("wt%", "vol%") and r >= 0.25 and i % 3 == 0 and not (i % 40 == 0 or i % 44 == 1):
+        if form in ("wt%", "vol%") and r >= 0.45 and i % 3 == 0 and not (i % 40 == 0 or i % 44 == 1):
             # the string means the same as the call
             qs = [p["q"] for p in spec["parts"][:-1]]
             qs.append(100 - sum(qs))
